@@ -383,9 +383,9 @@ impl ChannelManager {
         break 'admission Err(narwhal_protocol::Error::new(ChannelIsFull).with_id(correlation_id).into());
       }
       // Check if the maximum number of subscriptions is reached.
-      if let Some(in_channels) = in_channels.get(&new_member_nid.username)
-        && in_channels.len() >= max_channels_per_client as usize
-      {
+      let subscriptions = in_channels.get(&new_member_nid.username).map_or(0, |in_channels| in_channels.len());
+
+      if subscriptions >= max_channels_per_client as usize {
         break 'admission Err(
           narwhal_protocol::Error::new(PolicyViolation)
             .with_id(correlation_id)
